@@ -20,7 +20,7 @@ ASSUMPTIONS = [
 ]
 EXHAUSTIVE_WHEN_PARTS = True
 
-FORMS = ["numeric", "backward_label", "forward_label", "backward_label_expr", "backward_label_macro", "numeric_bank0", "backward_label_after_incbin", "symbol_target_assigned_later", "qualified_target", "label_in_macro_applied_twice"]
+FORMS = ["numeric", "backward_label", "forward_label", "backward_label_expr", "backward_label_macro", "numeric_bank0", "backward_label_after_incbin", "symbol_target_assigned_later", "qualified_target", "label_in_macro_applied_twice", "backward_label_behind_incbin"]
 RELOCS = ["none", "reloc_rom", "reloc_rom_near", "reloc_ram", "org_ram", "reloc_ram_near_storage", "resume_after_reloc", "resume_after_reloc_gap"]
 
 
@@ -149,6 +149,14 @@ def build(rom: str, m: str, d: int, place: int, form: str, reloc: str):
         body = [".if 1 {\n" + inner + "}\n", ".if 0 {\nnop\n} else {\n" + inner + "}\n", inner][d % 3]
         src = head + ".macro poll() {\n" + body + "}\npoll()\npoll()\n"
         return src, adv(rom, run, n), run, adv(rom, stored, n)
+    if form == "backward_label_behind_incbin":
+        # a binary file of a few hundred bytes stands before the loop (same block): target and branch both lie behind it
+        n = -d - 2
+        if n < 0:
+            return None
+        blob = 300 + (d % 7) * 31
+        src = head + ".incbin 'pre.bin'\n" + "tgt:\n" + filler(n) + f"{m} tgt\n"
+        return src, adv(rom, run, blob + n), adv(rom, run, blob), adv(rom, stored, blob + n), {"pre.bin": bytes([0xEA]) * blob}
     if form == "backward_label_after_incbin":
         # a binary file stands between the target and the branch (same block): it counts like any other bytes
         n = -d - 2
